@@ -337,6 +337,86 @@ def replay(prog, text, sql_text, schema, data, ast=None, ordered=None, solver_s=
                    detail="SQLite result differs from the reference meaning")
 
 
+def check_equivalent(base, rw, driver, target="sql.sqlite", k=2, schema=None, timeout_ms=20000):
+    """C06: the SQL emitted for a program and for its rewritten form are equivalent on every instance within the
+    bound (no reference semantics involved; the reference of the base program only supplies the order status
+    and the tie/NULL preconditions)"""
+    schema = schema or SCHEMA
+    ta, tb = base.text(), rw.text()
+    pd = target if target == "sql.sqlite" else "sql.generic"
+    ra = driver.compile(ta, target, want_ast=True, parse_dialect=pd)
+    if not ra.get("ok") or "ast" not in ra:
+        return Outcome("base_rejected", prql=ta, detail=str(ra.get("errors") or ra.get("panic") or ra.get("ast_error"))[:300])
+    rb = driver.compile(tb, target, want_ast=True, parse_dialect=pd)
+    if rb.get("panic") or rb.get("crash"):
+        return Outcome("panic", prql=tb, base=ta, detail=rb.get("panic") or rb.get("crash"))
+    if not rb.get("ok"):
+        return Outcome("violation", kind="rewrite_rejected", prql=tb, base=ta, sql=ra["sql"],
+                       detail="the rewritten program is rejected: " + "; ".join(str(e.get("reason")) for e in rb.get("errors", []))[:300])
+    if "ast" not in rb:
+        return Outcome("sql_unparseable", prql=tb, base=ta, sql=rb["sql"], detail=rb.get("ast_error"))
+    if ra["sql"] == rb["sql"]:
+        return Outcome("ok", prql=tb, base=ta, sql=rb["sql"], identical=True, solver_s=0.0)
+    db = SymDB(schema, k)
+    pre = P.Pre()
+    dialect = "sqlite" if target == "sql.sqlite" else "generic"
+    try:
+        ref = P.Ref(db, base, pre).run()
+        ordered = ref.order is not None
+    except Unsupported as e:
+        return Outcome("ref_unsupported", prql=tb, base=ta, detail=str(e))
+    try:
+        A = S.SqlSem(db, dialect).run(ra["ast"])
+        B = S.SqlSem(db, dialect).run(rb["ast"])
+    except (S.BindError, Unsupported) as e:
+        # the base program's own problems belong to C01/C03/C05; only an asymmetry matters here
+        try:
+            S.SqlSem(db, dialect).run(ra["ast"])
+        except (S.BindError, Unsupported):
+            return Outcome("base_unsupported", prql=tb, base=ta, detail=str(e))
+        return Outcome("sql_unsupported" if isinstance(e, Unsupported) else "violation", kind="sqlite_error", prql=tb, base=ta, sql=rb["sql"], base_sql=ra["sql"],
+                       detail=f"rewritten program's SQL does not bind: {e}")
+    if len(A.cols) != len(B.cols):
+        return Outcome("violation", kind="arity", prql=tb, base=ta, sql=rb["sql"], base_sql=ra["sql"],
+                       detail=f"base SQL returns {[c.name for c in A.cols]}, rewritten returns {[c.name for c in B.cols]}")
+    cmp_ordered = ordered and A.order is not None and B.order is not None
+    try:
+        diff = result_differs(_asref(A), B, cmp_ordered)
+    except Unsupported as e:
+        return Outcome("sql_unsupported", prql=tb, base=ta, detail=str(e))
+    s = z3.Solver()
+    s.set("timeout", timeout_ms)
+    s.add(*db.domain)
+    s.add(*pre.conds)
+    s.add(diff)
+    ts = time.time()
+    res = s.check()
+    dt = time.time() - ts
+    if res == z3.unsat:
+        return Outcome("ok", prql=tb, base=ta, sql=rb["sql"], base_sql=ra["sql"], solver_s=dt)
+    if res != z3.sat:
+        return Outcome("inconclusive", prql=tb, base=ta, detail=str(s.reason_unknown()), solver_s=dt)
+    data = db.concrete(s.model())
+    try:
+        na, rows_a = run_sqlite(schema, data, ra["sql"])
+    except sqlite3.Error as e:
+        return Outcome("base_unsupported", prql=tb, base=ta, detail=f"base SQL fails on SQLite: {e}")
+    try:
+        nb, rows_b = run_sqlite(schema, data, rb["sql"])
+    except sqlite3.Error as e:
+        return Outcome("violation", kind="sqlite_error", prql=tb, base=ta, sql=rb["sql"], base_sql=ra["sql"], data=data, detail=f"SQLite rejects the rewritten program's SQL: {e}")
+    same = rows_match([(i, r) for i, r in enumerate(rows_a)], rows_b, ordered)
+    if same:
+        return Outcome("unreproduced", prql=tb, base=ta, sql=rb["sql"], base_sql=ra["sql"], data=data, solver_s=dt)
+    return Outcome("violation", kind="result", prql=tb, base=ta, sql=rb["sql"], base_sql=ra["sql"], data=data, ordered=ordered,
+                   expected=[list(r) for r in rows_a], actual=[list(r) for r in rows_b], solver_s=dt,
+                   detail="the rewritten program returns different rows than the base program")
+
+
+def _asref(A):
+    return A
+
+
 def structural(prog, text, sql_text, schema, why, expect_cols=None):
     """binder/arity/name problems: confirm on real SQLite with a small concrete instance before reporting"""
     data = {t: [tuple(range(1 + i, 1 + i + len(cols))) for i in range(2)] for t, cols in schema.items()}
